@@ -83,6 +83,8 @@ def generate(prop, seed, tier):
                 o["given_literal"] = S.pick([1.0, 1.5, 2.0, 2.5])
             if op == "cond_sample":
                 o["n"] = S.pick([20000, 100000])
+                if S.chance(0.15):
+                    o["n"], o["max_iter"] = 20000, S.pick([1, 2, 3])
                 if dim == 1 and S.chance(0.3):
                     # another live model (other parameters) is asked first, for the very same conditioning value
                     o["n"] = 20000
@@ -445,6 +447,24 @@ def _execute(prop, scen):
                         pass
                     run.count("probe:another-model-asked-first-at-the-same-conditioning-value")
                     site = f"dim{dim}/after-another-model"
+                if k == "cond_sample" and op.get("max_iter"):
+                    # the caller limits the number of proposal rounds: fewer realisations may come back
+                    # (a warning says so), but every one of them is a realisation of the conditional law
+                    x = np.asarray(api(t.conditional_sample, op["n"], dim, [g], random_state=op["seed"], max_iter=op["max_iter"]), dtype=float)
+                    run.event(k, [dim, op["given_q"], op["n"], op["seed"], op["max_iter"]], x)
+                    run.count("probe:conditional-sample-with-few-proposal-rounds")
+                    # (how many come back on this path is not specified: the unchanged code returns every
+                    # accepted proposal of the last round, which can be more than n)
+                    if len(x) >= 500:
+                        if not np.all(np.isfinite(x)) or np.any(x <= 0):
+                            run.violate("I3-conditional-sample-law", site + "/max_iter", {"given": g, "what": "non-finite or non-positive realisations", "n_returned": len(x), "step": si})
+                            return run
+                        d = _ks(ref.cond_cdf(x, dim, g))
+                        run.count("dkw_comparisons")
+                        if not d <= eps_dkw(len(x)) + m0:
+                            run.violate("I3-conditional-sample-law", site + "/max_iter", {"given": g, "sup_distance": d, "eps_dkw": eps_dkw(len(x)), "n_returned": len(x), "max_iter": op["max_iter"], "step": si})
+                            return run
+                    continue
                 if k == "cond_sample":
                     g_arg = [g]
                     if op.get("given_literal") is not None and float(g).is_integer() and si % 2 == 0:
